@@ -54,6 +54,10 @@ func (e *Enc) call(st *State, c *ssa.CallCommon, ins ssa.Instruction, deferred b
 		e.oblige("nil", "invoke."+c.Method.Name(), ap, st.reach, Not(Eq(recv.T, I(0))), "method call on nil interface", ins.Pos())
 		args = append(args, recv)
 		argTypes = append(argTypes, c.Value.Type())
+		if c.Method.Name() == "SetPosition" && e.pkg != nil && pkgShort(e.pkg) != "parser" && pkgShort(e.pkg) != "ast" {
+			e.declIface()
+			e.oblige("frame", "ast.SetPosition", e.frameProps(), st.reach, Ge(e.root(app(SInt, "ival", recv.T)), e.pre.hwm), "SetPosition on an AST node that this activation did not allocate", ins.Pos())
+		}
 	} else if c.StaticCallee() == nil {
 		fv := e.val(st, c.Value)
 		e.oblige("nil", "funcvalue", ap, st.reach, Not(Eq(fv.T, I(0))), "call of nil function", ins.Pos())
